@@ -147,3 +147,17 @@ package bpv7
 // govc:trusted (*ExtensionBlockManager).IsKnown
 //@ assigns nothing
 //@ ensures result == uf("ebmKnown", bool, typeCode)
+
+// ---- DTLSR link-state data (C20) ----
+// Link-state data is replaced only by data with a strictly newer timestamp.
+// govc:func (DTLSRPeerData).ShouldReplace property C20
+//@ assigns nothing
+//@ ensures result == (pd.Timestamp > other.Timestamp)
+
+// govc:func (*DTLSRBlock).GetPeerData property C20
+//@ opt inline true
+//@ assigns nothing
+//@ ensures result.ID == (*dtlsrb).ID && result.Timestamp == (*dtlsrb).Timestamp && ref(result.Peers) == ref((*dtlsrb).Peers)
+
+// A block with the DTLSR type code carries a *DTLSRBlock once that type is registered (NewDTLSR does so).
+// govc:spec dtlsrTyped(b Bundle) bool = forall j int :: 0 <= j && j < len(b.CanonicalBlocks) ==> (b.CanonicalBlocks[j].Value.BlockTypeCode() == 193 ==> is(b.CanonicalBlocks[j].Value, *DTLSRBlock))
